@@ -242,6 +242,17 @@ class StoreWorld(object):
         class Widget20(object):
             pass
         self.Widget21, self.Widget20 = Widget21, Widget20
+        # two registered toplevel-property extensions (an object may name both)
+        self.TL_A = 'extension-definition--' + C.mkuuid(1, 'sim-toplevel')
+        self.TL_B = 'extension-definition--' + C.mkuuid(2, 'sim-toplevel')
+
+        @s.v21.CustomExtension(self.TL_A, [('rank', IntegerProperty())])
+        class TopLevelA(object):
+            extension_type = 'toplevel-property-extension'
+
+        @s.v21.CustomExtension(self.TL_B, [('score', IntegerProperty(required=True)), ('toxicity', IntegerProperty())])
+        class TopLevelB(object):
+            extension_type = 'toplevel-property-extension'
 
     def make_memory(self):
         ac = self.cfg.get('m_allow_custom', True)
